@@ -7,6 +7,7 @@ prop_mod!(c04, "c04.rs");
 prop_mod!(c05, "c05.rs");
 prop_mod!(c06, "c06.rs");
 prop_mod!(c08, "c08.rs");
+prop_mod!(c12, "c12.rs");
 
 fn dispatch(env: &common::Env) -> (&'static str, Vec<common::Sub>) {
     match env.prop.as_str() {
@@ -17,6 +18,7 @@ fn dispatch(env: &common::Env) -> (&'static str, Vec<common::Sub>) {
         "C05" => (c05::LEVEL, c05::subs(env)),
         "C06" => (c06::LEVEL, c06::subs(env)),
         "C08" => (c08::LEVEL, c08::subs(env)),
+        "C12" => (c12::LEVEL, c12::subs(env)),
         other => panic!("no harness for property {other} in this build"),
     }
 }
